@@ -22,6 +22,9 @@ type VPState struct {
 	PrevSmoothPointY float32
 	ViewBox          ivg.ViewBox
 	R                image.Rectangle
+	// StaleRanges > 0 leaves that many ranges of an earlier gradient paint in the
+	// Renderer's gradient (per-path state that only StartPath defines).
+	StaleRanges int
 }
 
 // VPSet overwrites the register-machine part of the state (the rasterizer
@@ -37,6 +40,14 @@ func (z *Renderer) VPSet(s *VPState) {
 	z.viewBox = s.ViewBox
 	z.r = s.R
 	z.recalcTransform()
+	if s.StaleRanges > 0 {
+		z.gradient.Ranges = make([]Range, s.StaleRanges)
+		for i := range z.gradient.Ranges {
+			z.gradient.Ranges[i] = Range{Offset0: 0, Offset1: 1, Width: 1, R1: 65535, A0: 65535, A1: 65535}
+		}
+		z.gradient.First.A, z.gradient.Last.A = 65535, 65535
+		z.fill = &z.gradient
+	}
 }
 
 func (z *Renderer) VPGet() VPState {
